@@ -180,6 +180,7 @@ def main():
     ap.add_argument("--seed", type=int, default=1)
     ap.add_argument("--out", default="/verif/mutation/campaign.jsonl")
     ap.add_argument("--files", default="")
+    ap.add_argument("--retest", default="", help="a campaign file: run its survivors again (results go to --out)")
     a = ap.parse_args()
     rnd = random.Random(a.seed)
     files = [f for f in CHECKS if not a.files or f in a.files.split(",")]
@@ -201,6 +202,13 @@ def main():
             r = json.loads(l)
             done.add((r["file"], r["line"], r["what"]))
     todo = [m for m in allm if (m["file"], m["line"], m["what"]) not in done][:a.n]
+    if a.retest:
+        surv = set()
+        for l in open(a.retest):
+            r = json.loads(l)
+            if r["baseline"] and not r["detected_by"]:
+                surv.add((r["file"], r["line"], r["what"]))
+        todo = [m for m in allm if (m["file"], m["line"], m["what"]) in surv and (m["file"], m["line"], m["what"]) not in done][:a.n]
     for i, m in enumerate(todo):
         m["id"] = len(done) + i + 1
     print("%d candidate mutants in %d files, %d already done, running %d with %d workers" % (len(allm), len(files), len(done), len(todo), a.workers), flush=True)
